@@ -80,6 +80,7 @@ mutual
     | ret (n : Option Nat)                 -- `return [n]`
     | exit (n : Option Nat)                -- `exit [n]`
     | setE (on : Bool)                     -- `set -e` / `set +e`
+    | setM (on : Bool)                     -- `set -m` / `set +m` (job control)
     | call (name : Name)                   -- a command name resolved by the search order
     | unknown                              -- a name that is nothing: status 127
     | tick (c k : Nat)                     -- regular built-in: succeeds while counter c < k, then fails
@@ -106,6 +107,7 @@ structure St where
   status : Nat := 0
   errexit : Bool := false
   pipefail : Bool := false
+  monitor : Bool := false
   stack : List Frame := []
   funcs : List (Name × Cmd) := []
   counters : List (Nat × Nat) := []
@@ -115,6 +117,13 @@ structure St where
 
 def St.push (s : St) (f : Frame) : St := { s with stack := f :: s.stack }
 def St.pop (s : St) : St := { s with stack := s.stack.tail }
+
+/-- `Env::controls_jobs` -/
+def St.controlsJobs (s : St) : Bool := s.monitor && !s.stack.contains .subshell
+
+/-- entering / leaving the subshell that wraps a job-controlled pipeline -/
+def St.enterJc (s : St) : St := if s.controlsJobs then s.push .subshell else s
+def St.leaveJc (s s1 : St) : St := if s.controlsJobs then s1.pop else s1
 
 /-- `errexit_is_applicable` -/
 def St.errexitApplicable (s : St) : Bool := s.errexit && !s.stack.contains .condition
@@ -213,6 +222,7 @@ mutual
       | .ret n => finishSimple s (.break_ (.return_ n))
       | .exit n => finishSimple s (.break_ (.exit n))
       | .setE on => finishSimple { s with errexit := on, status := 0 } .continue_
+      | .setM on => finishSimple { s with monitor := on, status := 0 } .continue_
       | .unknown => finishSimple { s with status := 127 } .continue_
       | .tick c k =>
         let v := getCounter s.counters c
@@ -410,11 +420,13 @@ mutual
     | _+1, s, [] => ({ s with status := 0 }, .continue_)
     | fuel+1, s, [c] => execCmd fuel s c
     | fuel+1, s, cmds =>
-      -- `execute_multi_command_pipeline`: every command in its own subshell
-      let (s1, r) := execPipeMembers fuel s cmds 0
+      -- `execute_multi_command_pipeline`: every command in its own subshell; under job control
+      -- (`execute_job_controlled_pipeline`) the whole pipeline runs in one more subshell, whose exit
+      -- status and output come back; `apply_errexit` is the parent's either way
+      let (s1, r) := execPipeMembers fuel s.enterJc cmds 0
       match r with
-      | .continue_ => (s1, s1.applyErrexit)
-      | r => (s1, r)
+      | .continue_ => (s.leaveJc s1, (s.leaveJc s1).applyErrexit)
+      | r => (s.leaveJc s1, r)
 
   /-- runs each member on a copy of the parent state; `final` accumulates the pipeline status -/
   def execPipeMembers : Nat → St → List Cmd → Nat → St × Res
